@@ -33,7 +33,7 @@ W = {1: 2, 2: 4}
 
 def floors(tier):
     q = tier == "quick"
-    return {"judged": 10**6 if q else 10**7, "judged:wide": 20000 if q else 400000, "judged:rev": 1000, "member_pairs": 10**7, "ops_seen": 30}
+    return {"judged": 10**6 if q else 10**7, "judged:wide": 20000 if q else 400000, "judged:rev": 1000, "judged:reuse": 3000, "member_pairs": 10**7, "ops_seen": 30}
 
 
 def plan(tier, seed):
@@ -47,6 +47,7 @@ def plan(tier, seed):
     S += [{"kind": "shape", "w": w} for w in ((2, 3, 4) if q else (2, 3, 4, 5))]
     S += [{"kind": "wide", "stream": i, "n": 6000 if q else 60000} for i in range(8 if q else 16)]
     S += [{"kind": "rev", "stream": i, "n": 1500 if q else 10000} for i in range(2)]
+    S += [{"kind": "reuse", "stream": i, "n": 4000 if q else 40000} for i in range(2 if q else 6)]
     return S
 
 
@@ -232,6 +233,8 @@ def run_shard(spec, res):
         wide_shard(spec, res, rng)
     elif kind == "rev":
         rev_shard(spec, res, rng)
+    elif kind == "reuse":
+        reuse_shard(spec, res, rng)
     res.count("ops_seen", len([k for k in res.counters if k.startswith("judged:") and not k.startswith("judged:exh") and k != "judged:wide"]))
 
 
@@ -368,6 +371,59 @@ def wide_shard(spec, res, rng):
             ok, r = apply(res, op, lambda X, Y: X.concat(Y), A, B)
             if ok:
                 judge_value(res, op, (tA, tB), r, itertools.product(ga, gb), lambda a, b: (a << wb) | b, "wide")
+
+
+def reuse_shard(spec, res, rng):
+    """the same operand objects used by several operations in a row (the VSA backend caches the object it converted
+    an expression to): the last operation is judged against the operands as they were built"""
+    from vf.mon import vsaops as V
+    from vf.ref import bvsem
+    from vf.ref import sigamma as G
+
+    firsts = {
+        "zext": lambda A, B, w: A.zero_extend(w + 3), "sext": lambda A, B, w: A.sign_extend(w + 2), "concat": lambda A, B, w: B.concat(A), "concat2": lambda A, B, w: A.concat(B),
+        "extract": lambda A, B, w: A.extract(w - 1, w // 2), "neg": lambda A, B, w: -A, "not": lambda A, B, w: ~A, "union": lambda A, B, w: A.union(B), "widen": lambda A, B, w: A.widen(B),
+        "intersection": lambda A, B, w: A.intersection(B), "eval": lambda A, B, w: (A.eval(5), A.max(), A.min(signed=True), A.cardinality), "reverse": lambda A, B, w: A.reverse(),
+    }
+    for op in V.BIN:
+        firsts[op] = (lambda o: lambda A, B, w: V.BIN[o][0](A, B))(op)
+    for op in V.CMP:
+        firsts[op] = (lambda o: lambda A, B, w: V.CMP[o][0](A, B))(op)
+    doms = {w: G.all_sis(w, aligned_only=True) for w in (3, 4)}
+    for _ in range(spec["n"]):
+        w = rng.choice([3, 4, 8, 16])
+        ta, tb = (rng.choice(doms[w]), rng.choice(doms[w])) if w <= 4 else (rand_si(rng, w), rand_si(rng, w))
+        A, B = V.mk(ta), V.mk(tb)
+        tA, tB = V.tup(A), V.tup(B)
+        ga = sorted(G.gamma(tA)) if G.count(tA) <= 64 else G.sample_members(tA, rng)
+        gb = sorted(G.gamma(tB)) if G.count(tB) <= 64 else G.sample_members(tB, rng)
+        seq = [rng.choice(list(firsts)) for _ in range(rng.choice([1, 2, 3]))]
+        if any(o in ("shl", "lshr", "ashr") for o in seq) and G.count(tB) > 40:
+            continue
+        for o in seq:
+            apply(res, "reuse-" + o, firsts[o], A, B, w)
+        last = rng.choice(["add", "sub", "and", "or", "xor", "mul", "ult", "sle", "eq", "neg", "not"])
+        note_case(res, "reuse:" + ",".join(seq) + ":" + last, (ta, tb))
+        extra = {"earlier_operations_on_the_same_objects": seq}
+        if last in V.BIN:
+            fn, conc, exempt = V.BIN[last]
+            ok, r = apply(res, last, fn, A, B)
+            if ok:
+                judge_value(res, last, (tA, tB), r, itertools.product(ga, gb), lambda a, b: conc(a, b, w), "reuse", extra)
+        elif last in V.CMP:
+            fn, cmpname = V.CMP[last]
+            ok, r = apply(res, last, fn, A, B)
+            if ok:
+                judge_bool(res, last, (tA, tB), r, itertools.product(ga, gb), cmpname, w)
+                res.count("judged:reuse")
+        else:
+            fn, conc = V.UN[last]
+            ok, r = apply(res, last, fn, A)
+            if ok:
+                judge_value(res, last, (tA,), r, ((a,) for a in ga), lambda a: conc(a, w), "reuse", extra)
+        if V.tup(A) != tA or V.tup(B) != tB:
+            res.count("operand_changed_in_place")
+            res.violation({"kind": "si-op", "mon": "M-si", "op": "reuse", "what": "an operation changed its operand object in place", "operands": [list(tA), list(tB)], "observed": [list(V.tup(A)), list(V.tup(B))], "earlier_operations_on_the_same_objects": seq})
 
 
 def rev_shard(spec, res, rng):
